@@ -7,7 +7,7 @@ Line-protocol driver for C16 (`FileSet.find_closest`).  Shared ops: see `Driver/
         T = µs; HASFILTERS = 0 (filters=None) | 1; WHITE/BLACK as for `find`;
         EXACT = id of the population file named `get_filename(T)` | `-`
         -> `ok id` | `err <class>`
-  csingle ISFILE          -> ok | err valueError
+  csingle ISFILE T        -> ok the-file | err valueError
 -/
 open FS TM
 
@@ -29,10 +29,13 @@ def step (s : St) (line : String) : St × String :=
       | .ok f => (s, s!"ok {f.id}")
       | .error e => (s, showErr e)
     | _, _, _, _ => (s, "bad-op")
-  | ["csingle", isf] =>
-    match closestSingle (isf == "1") with
-    | .ok _ => (s, "ok")
-    | .error e => (s, showErr e)
+  | ["csingle", isf, t] =>
+    match t.toNat? with
+    | some t =>
+      match closestSingle (isf == "1") "the-file" t none with
+      | .ok p => (s, s!"ok {p}")
+      | .error e => (s, showErr e)
+    | none => (s, "bad-op")
   | _ => (s, "bad-op")
 
 def main : IO Unit := do
